@@ -28,6 +28,7 @@ const mcPath = modPath + "/verifmc/mc"
 
 var importMap = map[string]string{
 	"sync":                  modPath + "/verifmc/msync",
+	"sync/atomic":           modPath + "/verifmc/matomic",
 	"time":                  modPath + "/verifmc/mtime",
 	"math/rand":             modPath + "/verifmc/mrand",
 	"container/list":        modPath + "/verifmc/mlist",
@@ -46,6 +47,7 @@ func main() {
 	mcdir := flag.String("mc", "/verif/mc", "runtime package sources")
 	hooks := flag.String("hooks", "/verif/hooks", "hook files: <dir>/<pkg with _ for />/*.go are added to the package")
 	pkgsFlag := flag.String("pkgs", "knx,knx/knxnet", "packages (relative to the module root) to rewrite")
+	optFlag := flag.String("optpkgs", "knx/cemi,knx/dpt,knx/util", "packages rewritten only when they contain concurrency constructs or package-level variables that functions modify")
 	instrument := flag.Bool("race", true, "instrument struct-field accesses for the race detector")
 	extraOverlay := flag.String("extra", "", "comma separated repoRelPath=file pairs overlaid verbatim (not rewritten)")
 	flag.Parse()
@@ -74,6 +76,13 @@ func main() {
 			}
 		}
 	}
+	optional := map[string]bool{}
+	for _, p := range strings.Split(*optFlag, ",") {
+		if p != "" {
+			optional[modPath+"/"+p] = true
+			pkgPaths = append(pkgPaths, modPath+"/"+p)
+		}
+	}
 	cfg := &packages.Config{
 		Mode:    packages.NeedName | packages.NeedFiles | packages.NeedSyntax | packages.NeedTypes | packages.NeedTypesInfo | packages.NeedImports | packages.NeedDeps | packages.NeedCompiledGoFiles,
 		Dir:     *repo,
@@ -91,12 +100,29 @@ func main() {
 	}
 	for _, p := range pkgs {
 		rel := strings.TrimPrefix(p.PkgPath, modPath+"/")
+		globals := mutatedGlobals(p)
+		if optional[p.PkgPath] {
+			why := needsRewrite(p, globals, "")
+			if why == "" {
+				fmt.Printf("mcgen: %s left as it is (no concurrency constructs, no package-level variable modified by a function)\n", rel)
+				continue
+			}
+			fmt.Printf("mcgen: %s rewritten: %s\n", rel, why)
+		}
+		codecPoints := optional[p.PkgPath]
+		if rel == "knx/knxnet" {
+			// the frame codecs next to the socket layer: statement-level points only when they hold state
+			if why := needsRewrite(p, globals, "socket.go"); why != "" {
+				codecPoints = true
+				fmt.Printf("mcgen: knx/knxnet codecs get statement-level scheduling points: %s\n", why)
+			}
+		}
 		for i, f := range p.Syntax {
 			name := p.CompiledGoFiles[i]
 			if strings.HasSuffix(name, "_test.go") {
 				continue
 			}
-			rw := &rewriter{pkg: p, file: f, fset: p.Fset, base: filepath.Base(name), instrument: *instrument, newType: map[ast.Node]types.Type{}, recvCalls: map[*ast.CallExpr]bool{}}
+			rw := &rewriter{pkg: p, file: f, fset: p.Fset, base: filepath.Base(name), instrument: *instrument, globals: globals, stmtPoints: codecPoints && !(rel == "knx/knxnet" && filepath.Base(name) == "socket.go") && fileHoldsState(p, f, globals), newType: map[ast.Node]types.Type{}, recvCalls: map[*ast.CallExpr]bool{}}
 			src := rw.rewrite()
 			dst := filepath.Join(*out, "src", rel, filepath.Base(name))
 			if err := os.MkdirAll(filepath.Dir(dst), 0o755); err != nil {
@@ -140,6 +166,8 @@ func main() {
 }
 
 type rewriter struct {
+	stmtPoints bool
+	globals    map[*types.Var]bool
 	pkg        *packages.Package
 	file       *ast.File
 	fset       *token.FileSet
@@ -215,8 +243,12 @@ func exprName(e ast.Expr) string {
 func (r *rewriter) rewrite() []byte {
 	if r.instrument {
 		r.instrumentPass()
+		r.globalsPass()
 	}
 	r.channelPass()
+	if r.stmtPoints {
+		r.stmtPass()
+	}
 	r.importPass()
 	var buf bytes.Buffer
 	r.file.Comments = nil
@@ -321,6 +353,235 @@ func (r *rewriter) instrumentPass() {
 		c.Replace(repl)
 		return true
 	})
+}
+
+// ---------------------------------------------------------------------------------------------
+// package-level variables that function bodies modify (hidden shared state)
+
+func rootIdent(e ast.Expr) *ast.Ident {
+	for {
+		switch x := e.(type) {
+		case *ast.Ident:
+			return x
+		case *ast.ParenExpr:
+			e = x.X
+		case *ast.IndexExpr:
+			e = x.X
+		case *ast.SliceExpr:
+			e = x.X
+		case *ast.SelectorExpr:
+			e = x.X
+		case *ast.StarExpr:
+			e = x.X
+		default:
+			return nil
+		}
+	}
+}
+
+func isRuntimeType(t types.Type) bool {
+	if p, ok := t.(*types.Pointer); ok {
+		t = p.Elem()
+	}
+	n, ok := t.(*types.Named)
+	if !ok || n.Obj().Pkg() == nil {
+		return false
+	}
+	switch n.Obj().Pkg().Path() {
+	case "sync", "sync/atomic":
+		return true
+	}
+	return false
+}
+
+// writeRoots calls f for every identifier that is the root of an expression a function body
+// modifies: assignment targets, ++/--, operands of &, sliced arrays, first arguments of copy and
+// append, receivers of pointer methods called on an addressable value.
+func writeRoots(info *types.Info, body ast.Node, f func(id *ast.Ident)) {
+	root := func(e ast.Expr) {
+		if id := rootIdent(e); id != nil {
+			f(id)
+		}
+	}
+	ast.Inspect(body, func(n ast.Node) bool {
+		switch x := n.(type) {
+		case *ast.AssignStmt:
+			if x.Tok != token.DEFINE {
+				for _, l := range x.Lhs {
+					root(l)
+				}
+			}
+		case *ast.IncDecStmt:
+			root(x.X)
+		case *ast.RangeStmt:
+			if x.Tok == token.ASSIGN {
+				if x.Key != nil {
+					root(x.Key)
+				}
+				if x.Value != nil {
+					root(x.Value)
+				}
+			}
+		case *ast.UnaryExpr:
+			if x.Op == token.AND {
+				root(x.X)
+			}
+		case *ast.SliceExpr:
+			if t := info.TypeOf(x.X); t != nil {
+				if _, ok := t.Underlying().(*types.Array); ok {
+					root(x.X)
+				}
+			}
+		case *ast.CallExpr:
+			if id, ok := x.Fun.(*ast.Ident); ok && (id.Name == "copy" || id.Name == "append") && len(x.Args) > 0 {
+				if _, ok := info.Uses[id].(*types.Builtin); ok {
+					root(x.Args[0])
+				}
+			}
+			if sel, ok := x.Fun.(*ast.SelectorExpr); ok {
+				if s := info.Selections[sel]; s != nil && s.Kind() == types.MethodVal {
+					if sig, ok := s.Obj().Type().(*types.Signature); ok && sig.Recv() != nil {
+						_, ptrRecv := sig.Recv().Type().(*types.Pointer)
+						_, isPtr := s.Recv().(*types.Pointer)
+						if ptrRecv && !isPtr && !isRuntimeType(s.Recv()) {
+							root(sel.X)
+						}
+					}
+				}
+			}
+		}
+		return true
+	})
+}
+
+func pkgLevelVar(info *types.Info, pkg *types.Package, id *ast.Ident) *types.Var {
+	v, ok := info.Uses[id].(*types.Var)
+	if !ok || v.IsField() || v.Pkg() != pkg || v.Parent() != pkg.Scope() {
+		return nil
+	}
+	return v
+}
+
+func mutatedGlobals(p *packages.Package) map[*types.Var]bool {
+	out := map[*types.Var]bool{}
+	for i, f := range p.Syntax {
+		if strings.HasSuffix(p.CompiledGoFiles[i], "_test.go") {
+			continue
+		}
+		for _, d := range f.Decls {
+			fd, ok := d.(*ast.FuncDecl)
+			if !ok || fd.Body == nil {
+				continue
+			}
+			writeRoots(p.TypesInfo, fd.Body, func(id *ast.Ident) {
+				if v := pkgLevelVar(p.TypesInfo, p.Types, id); v != nil && !isRuntimeType(v.Type()) {
+					out[v] = true
+				}
+			})
+		}
+	}
+	return out
+}
+
+// fileHoldsState: the file imports a synchronisation package, uses goroutines or channels, or
+// mentions a package-level variable that functions modify.
+func fileHoldsState(p *packages.Package, f *ast.File, globals map[*types.Var]bool) bool {
+	for _, imp := range f.Imports {
+		switch path, _ := strconv.Unquote(imp.Path.Value); path {
+		case "sync", "sync/atomic", "math/rand":
+			return true
+		}
+	}
+	found := false
+	ast.Inspect(f, func(n ast.Node) bool {
+		switch x := n.(type) {
+		case *ast.GoStmt, *ast.SelectStmt, *ast.SendStmt, *ast.ChanType:
+			found = true
+		case *ast.Ident:
+			if v, ok := p.TypesInfo.Uses[x].(*types.Var); ok && globals[v] {
+				found = true
+			}
+		}
+		return !found
+	})
+	return found
+}
+
+// needsRewrite says why an optional package has to run under the controlled runtime ("" = not).
+func needsRewrite(p *packages.Package, globals map[*types.Var]bool, except string) string {
+	var why []string
+	for i, f := range p.Syntax {
+		if strings.HasSuffix(p.CompiledGoFiles[i], "_test.go") || filepath.Base(p.CompiledGoFiles[i]) == except {
+			continue
+		}
+		base := filepath.Base(p.CompiledGoFiles[i])
+		for _, imp := range f.Imports {
+			switch path, _ := strconv.Unquote(imp.Path.Value); path {
+			case "sync", "sync/atomic", "math/rand":
+				why = append(why, base+" imports "+path)
+			}
+		}
+		ast.Inspect(f, func(n ast.Node) bool {
+			switch n.(type) {
+			case *ast.GoStmt, *ast.SelectStmt, *ast.SendStmt, *ast.ChanType:
+				why = append(why, base+" uses goroutines or channels")
+				return false
+			}
+			return true
+		})
+	}
+	var names []string
+	for v := range globals {
+		names = append(names, v.Name())
+	}
+	sort.Strings(names)
+	if len(names) > 0 {
+		why = append(why, "functions modify the package-level variable(s) "+strings.Join(names, ", "))
+	}
+	if len(why) > 4 {
+		why = append(why[:4], "...")
+	}
+	return strings.Join(why, "; ")
+}
+
+// globalsPass instruments every use of a modified package-level variable inside function bodies.
+func (r *rewriter) globalsPass() {
+	if len(r.globals) == 0 {
+		return
+	}
+	info := r.info()
+	for _, d := range r.file.Decls {
+		fd, ok := d.(*ast.FuncDecl)
+		if !ok || fd.Body == nil {
+			continue
+		}
+		writes := map[*ast.Ident]bool{}
+		writeRoots(info, fd.Body, func(id *ast.Ident) { writes[id] = true })
+		astutil.Apply(fd.Body, nil, func(c *astutil.Cursor) bool {
+			id, ok := c.Node().(*ast.Ident)
+			if !ok {
+				return true
+			}
+			v := pkgLevelVar(info, r.pkg.Types, id)
+			if v == nil || !r.globals[v] {
+				return true
+			}
+			if sel, ok := c.Parent().(*ast.SelectorExpr); ok && sel.Sel == id {
+				return true
+			}
+			fn := "R"
+			if writes[id] {
+				fn = "W"
+			}
+			r.needMC = true
+			site := fmt.Sprintf("%s:%s:%s", r.base, fd.Name.Name, id.Name)
+			call := &ast.CallExpr{Fun: mcSel(fn), Args: []ast.Expr{&ast.UnaryExpr{Op: token.AND, X: ast.NewIdent(id.Name)}, strLit(site)}}
+			repl := &ast.ParenExpr{X: &ast.StarExpr{X: call}}
+			r.newType[repl] = v.Type()
+			c.Replace(repl)
+			return true
+		})
+	}
 }
 
 // ---------------------------------------------------------------------------------------------
@@ -589,6 +850,56 @@ func (r *rewriter) rewriteGo(g *ast.GoStmt) ast.Stmt {
 		return stmts[0]
 	}
 	return &ast.BlockStmt{List: stmts}
+}
+
+// ---------------------------------------------------------------------------------------------
+// pass 2b: statement-level scheduling points (codec packages only; inactive unless a scenario
+// switches them on)
+
+func (r *rewriter) stmtPass() {
+	point := func() ast.Stmt {
+		return &ast.ExprStmt{X: &ast.CallExpr{Fun: mcSel("StmtPoint")}}
+	}
+	weave := func(list []ast.Stmt) []ast.Stmt {
+		if len(list) == 0 {
+			return list
+		}
+		out := make([]ast.Stmt, 0, 2*len(list))
+		for _, st := range list {
+			out = append(out, point(), st)
+		}
+		return out
+	}
+	for _, d := range r.file.Decls {
+		fd, ok := d.(*ast.FuncDecl)
+		if !ok || fd.Body == nil {
+			continue
+		}
+		skip := map[*ast.BlockStmt]bool{}
+		ast.Inspect(fd.Body, func(n ast.Node) bool {
+			switch x := n.(type) {
+			case *ast.SwitchStmt:
+				skip[x.Body] = true
+			case *ast.TypeSwitchStmt:
+				skip[x.Body] = true
+			case *ast.SelectStmt:
+				skip[x.Body] = true
+			case *ast.BlockStmt:
+				if skip[x] {
+					return true
+				}
+				x.List = weave(x.List)
+				r.needMC = r.needMC || len(x.List) > 0
+			case *ast.CaseClause:
+				x.Body = weave(x.Body)
+				r.needMC = r.needMC || len(x.Body) > 0
+			case *ast.CommClause:
+				x.Body = weave(x.Body)
+				r.needMC = r.needMC || len(x.Body) > 0
+			}
+			return true
+		})
+	}
 }
 
 // ---------------------------------------------------------------------------------------------
